@@ -242,6 +242,10 @@ func nativeOf(v MVal) any {
 	return out
 }
 
+// treeAliased is set when the last generated tree shares structure inside itself; such a value is never modified by the
+// harness afterwards (its independent model copy would not share the same structure), only watched.
+var treeAliased bool
+
 // genNativeTree draws a Go tree of []any / map[string]any / scalars.
 func genNativeTree(d drawer, depth, width int) any {
 	if depth > 0 {
@@ -251,6 +255,17 @@ func genNativeTree(d drawer, depth, width int) any {
 			out := make([]any, n)
 			for i := range out {
 				out[i] = genNativeTree(d, depth-1, width)
+			}
+			// Go values may share structure without being cyclic: the same sub-tree twice, a slice that holds a prefix of itself
+			if n >= 3 {
+				switch d.Draw("nat-alias", 12) {
+				case 0:
+					out[n-1] = out[0]
+					treeAliased = true
+				case 1:
+					out[n-1] = out[: n-1 : n-1]
+					treeAliased = true
+				}
 			}
 			return out
 		case 1:
